@@ -650,6 +650,11 @@ impl<P: RuntimeProvider + Send + Sync> SqliteZoneHandler<P> {
                 return Err(ResponseCode::NotZone);
             }
 
+            // MAILB (253) and MAILA (254) are QUERY meta-types too (RFC 1035 3.2.3, RFC 2136 3.4.1.2)
+            if let RecordType::Unknown(253 | 254) = rr.record_type() {
+                return Err(ResponseCode::FormErr);
+            }
+
             let class: DNSClass = rr.dns_class;
             if class == self.in_memory.class() {
                 match rr.record_type() {
